@@ -110,9 +110,11 @@ CLAIMS["C02"] = _b(
     "for, that service is registered, its object exists and its owner is connected (pending_call_has_live_callee); hence a call that "
     "is still pending at its caller has a live callee - once the service or its object is destroyed or the owner has disconnected in "
     "any way the entry is gone (pending_entry_has_live_callee) and, with the balance theorem, exactly one reply has been delivered "
-    "(ended_callee_means_answered). Partial: that this synthesized reply says InvalidService is decided by "
-    "the correspondence runs (overlapping calls, serial reuse also right after an abort, aborts, destruction, all four disconnect "
-    "modes, mixed versions).", "DESIGN.md section 6 C02 and 10.2")
+    "(ended_callee_means_answered). That this synthesized reply says InvalidService: remove_service, from any state in which it succeeds, "
+    "takes every call of the service's set out of the call table and defers exactly one (caller serial, caller, InvalidService) per call "
+    "that was not aborted (destroyed_service_answers_invalid_service), and the work loop sends a deferred item as CallFunctionReply to the "
+    "caller if it is still connected (deferred_reply_is_sent). The correspondence runs cover overlapping calls, serial reuse also right "
+    "after an abort, aborts, destruction, all four disconnect modes, mixed versions.", "DESIGN.md section 6 C02 and 10.2")
 CLAIMS["C03"] = _b(
     "Machine-checked proofs (Lean 4), for every broker state, that create/destroy object and create service answer ok / duplicate / "
     "invalid-object / foreign-object exactly by registry state and ownership, register the entity under both keys for the sender, and "
